@@ -206,7 +206,8 @@ def cross_eval(n1: int, n2: int, a: int, j: int) -> None:
     # lambda defined by one eval (budget n1), invoked by a later eval (budget n2) sharing `names`
     names = {'a': a}
     out = run_eval(hlib.PARAM["define"], names, n1)
-    hlib.assume(out[0] == 'ok')
+    hlib.assume(out[0] == 'ok' or hlib.PARAM.get("define_fails"))
+    hlib.assume('f' in names)
     for _ in range(j):
         run_eval(hlib.PARAM["use"], names, 10**6)   # earlier uses by other calls must not matter
     need = count_nodes(hlib.PARAM["use"], dict(names))
